@@ -10,6 +10,7 @@ import TshVerif.Model.Parser
 import TshVerif.Model.Cli
 import TshVerif.Model.Wf
 import TshVerif.Model.Typed
+import TshVerif.Model.PTyped
 import TshVerif.Model.StdStrings
 import TshVerif.Sem.Src
 import TshVerif.Sem2.Src
@@ -43,6 +44,12 @@ def withProgram (sexp : String) (f : Program → String) : String :=
 def wfTag (p : Program) : String :=
   if !wfStmts p then "NOTWF " else if !typedProgram p then "ILLTYPED "
   else if !placedStmts { brkAnywhere := true } p then "MISPLACED " else "OK "
+
+/-- PTCHECK <sexp>: the conclusion of the parser theorem (Props/C06Sem) evaluated on an AST of the real parser -/
+def handlePT (sexp : String) : String :=
+  withProgram sexp fun p =>
+    let b (x : Bool) := if x then "1" else "0"
+    "PT " ++ b (PT.program p) ++ " " ++ b (PT.strictSs p) ++ " " ++ b (typedProgram p)
 
 def handleBash (sexp : String) : String :=
   withProgram sexp fun p =>
@@ -279,6 +286,7 @@ def handle (line : String) : String :=
   if line.startsWith "SEM " then handleSem ((line.drop 4).toString.splitOn " ") else
   if line.startsWith "FULLBASH " then handleFullBash ((line.drop 9).toString.splitOn " ") else
   if line.startsWith "PARSE " then handleParse ((line.drop 6).toString.splitOn " ") else
+  if line.startsWith "PTCHECK " then handlePT (line.drop 8).toString else
   if line.startsWith "BASH " then handleBash (line.drop 5).toString else
   match line.splitOn " " with
   | ["LEX"] => handleLex ""
